@@ -382,8 +382,17 @@ class Store:
             if lo2 >= 0:
                 self.cache[k] = True
                 return True
-        # no relational constraint mentions e's symbols: the interval answer is exact
         r = self._fm_infeasible(e.neg().sub(1))
+        if not r and self.neq:
+            # e >= 0 follows from e + 1 >= 0 together with a recorded disequality e + 1 != 0
+            e1 = e.add(1)
+            k1, k2 = e1.key(), e1.neg().key()
+            for q in self.neq:
+                qk = q.key()
+                if qk == k1 or qk == k2:
+                    if self._fm_infeasible(e1.neg().sub(1)):
+                        r = True
+                    break
         self.cache[k] = r
         return r
 
